@@ -137,10 +137,10 @@ class Epochs:
         self.r = list(r) if r is not None else None
 
     def index(self, t):
-        """epoch of a time strictly inside it / of an event time taken from the OLDER side is not needed: an event
-        exactly on a boundary b_j (j>0) is, by the skyline convention (rate interval [b_j, b_{j+1}) in backward time
-        is open at the recent end for the process run forwards), governed by the rates of the epoch the lineage lives
-        in just BEFORE the boundary in forward time, i.e. the older epoch j."""
+        """epoch j with b[j] <= t < b[j+1].  An event exactly on a boundary b[j] (j > 0) is thus attributed to the OLDER
+        epoch j; this only matters for tips sampled BY the rho-event of that boundary (they start, removed or not, on the
+        older side).  psi-sampled tips and branching times exactly on a boundary between epochs with different rates are
+        a measure-zero ambiguity of the density and are never generated by the callers."""
         j = 0
         for k, b in enumerate(self.b):
             if t >= b:
@@ -162,10 +162,8 @@ def _rk4_segment(p, L, t0, t1, lam, mu, psi, h):
         k2 = f(p + 0.5 * dt * k1)
         k3 = f(p + 0.5 * dt * k2)
         k4 = f(p + dt * k3)
-        # d(log g) = (-s + 2 lam p) dt : Simpson with the RK4 stage values (same order)
-        pm = p + 0.5 * dt * (k1 + k2) / 2.0  # p at the midpoint (second-order stage average)
         pn = p + dt * (k1 + 2 * k2 + 2 * k3 + k4) / 6.0
-        # 4th-order midpoint value by Hermite interpolation
+        # d(log g) = (-s + 2 lam p) dt : Simpson's rule with the midpoint value of p from cubic Hermite interpolation
         pmid = 0.5 * (p + pn) + dt * (k1 - f(pn)) / 8.0
         L = L + dt * (-s + 2 * lam * (p + 4 * pmid + pn) / 6.0)
         p = pn
